@@ -11,7 +11,7 @@ CHECKS = {
          "DESIGN.md §4 C11"),
  "C14": ("PBT with invariant oracles (conservation, letter preservation) + reference Liang positions + replay of TeX 913-916 on letter counts, calibrated on the crate's 33 unit goldens and 995 TeX-produced Alice boxes",
          "Random texts in cmr10 (ligatures, kerns, punctuation, digits, explicit hyphens, 64+ letter words, words after letterless tokens, nodes pushed directly after words) and in cmr10's metrics with generated lig/kern programs involving the hyphen and both boundaries; custom and plain TeX pattern sets; hyphen minimums 1..5 x 1..5. (i) deleting the inserted discretionaries gives back the original list node for node; (ii) at each discretionary pre-break minus hyphen + post-break carry the letters of the replaced nodes; (iii) every discretionary sits at a Liang position allowed by the minimums; (iv) every allowed position has a discretionary unless it lies strictly inside the letters replaced by an earlier one (for kern/=:-only fonts TeX 913-916 is replayed exactly); words tried = the first letter run after every glue.",
-         "Trusted: models/liang.rs, the conservation alignment, cmr10 from the corpus, proptest; a 20 s per-case watchdog reports a hang as a violation. Words where TeX itself rebuilds the list (ligature/implicit kern across the word end) and looping programs are outside the property: skipped and counted.",
+         "Trusted: models/liang.rs, the conservation alignment, cmr10 from the corpus, proptest; models/tex_hyph.rs (TeX 903-918 reconstitution, reproduces the 33 unit goldens and 995 Alice boxes node for node) is used to decide exactly which words TeX itself rebuilds differently and as a counted (never failing) comparison; a hang is a violation only after 10 s of thread CPU time, a wall-clock-only timeout is inconclusive (exit 2). Looping lig/kern programs are skipped and counted.",
          "DESIGN.md §4 C14"),
  "C10": ("exhaustive header sweep + mutation/grammar-based totality fuzzing under catch_unwind with an independent header model (TFtoPL 20-21) and the composition oracle deserialize(pl_to_tfm(text))",
          "Each of the twelve 16-bit header words takes all 2^16 values against 300 (quick) / 663 (thorough) base files (short files, truncated corpus fonts, a full font); every truncation of every corpus font; random byte mutations; size-consistent random files reaching char_info/lig_kern/exten validation; token-level mutations of every corpus property list and of generated ones (subtree delete/duplicate/swap, parenthesis add/drop, out-of-range numbers, labels for undeclared or too-small characters, huge NEXTLARGER cycles, >255 steps, deep nesting). tfm_to_pl returns exactly the documented error/acceptance the header model predicts; pl_to_tfm returns; its output is accepted by File::deserialize with 4*lf == len and converts back; a second validate_and_fix pass repeats no repair warning; any panic is a violation.",
@@ -19,7 +19,7 @@ CHECKS = {
          "DESIGN.md §4 C10"),
  "C04": ("PBT against an exhaustive dynamic program over all legal break sequences (reference optimum + validity predicate), calibrated on the repository's TeX-verified goldens and traces",
          "Random lists over a synthetic font (words, glue incl. infinite, penalties from -20000 to 20000, explicit kerns, discretionaries with pre/post/replace parts, discardable runs; 3-40+ breakpoints) x 1-3 line widths x tolerances x every demerit/penalty parameter x skips x emergency stretch x looseness -2..2 x force_solution. break_line_single_attempt returns Some iff the unpruned DP over (break x line count x fitness class) finds a feasible sequence (with TeX 873-875 for looseness); returned breaks are legal, every line's badness within tolerance as recomputed by the model, and total demerits equal the DP optimum for the selected line count; break positions are never compared. Goldens: 28 configurations pass by pass against the recorded TeX logs.",
-         "Trusted: models/kp_eval.rs (TeX 813-875 semantics without active list/deactivation/class pruning), proptest. Non-monotone instances, totals reaching awful_bad and exact looseness ties are outside the property: skipped and counted.",
+         "Trusted: models/kp_eval.rs (TeX 813-875 semantics without active list/deactivation/class pruning), proptest. On non-monotone instances, totals reaching awful_bad and exact looseness ties only the part of the oracle that is sound without the precondition is applied (no panic, legality, feasibility of every line in a non-final pass, total >= optimum); counted separately.",
          "DESIGN.md §4 C04"),
  "C12": ("PBT against reference models: space-factor machine (TeX 1034, 1041-1044) and a transcription of post_line_break (877-890 incl. pruning 879), with the breakpoints recomputed differentially on a clone",
          "Random texts in cmr10 (ligature/kern sequences, space-factor punctuation, capitals, explicit hyphens, hyphenatable and letterless words) x \\spaceskip/\\xspaceskip x three space-factor tables x hyphenation on/off, and hand-built lists biased to consecutive glue/penalty/kern runs and discretionaries with all three parts, broken with random line widths, indents, penalties, skips, tolerances, looseness. The list spells the words; every inter-word glue equals the model; the broken list is the prepared list ending in \\penalty10000 \\parfillskip; line boxes and inter-line penalties equal the model item for item (nothing lost, duplicated or reordered; only the break item and following discardables dropped) with the requested width and shift.",
@@ -35,11 +35,11 @@ CHECKS = {
          "DESIGN.md §4 C17"),
  "C09": ("totality fuzzing by generated token soups and snippet programs under catch_unwind with a semantic error-location oracle; exhaustive vocabulary pairs; saved crash inputs as a replay tier",
          "Random soups (0-40 elements) over every installed primitive, user macros, braces, #, numbers at and beyond every limit (register indices, character codes incl. surrogates, 2^31 boundaries), units, keywords, ^^ forms, non-ASCII text, file names incl. areas, ~100 snippet programs (the stdlib's own 50 error cases + a valid use of every primitive family), truncated at any byte, under all five interaction modes; every pair of vocabulary items exhaustively. Ok, or an error whose Display is non-empty and whose traces have line>=1 and column<=line length; any panic (todo!, unwrap, overflow, slice, shutdown protocol) is a violation.",
-         "Trusted: catch_unwind with the harness panic hook, the harness state type (same components as StdLibState, in-memory file system, scripted terminal, expansion budget 3000), proptest. \\sleep/\\dumpFormat/\\dumpValidate not installed; \\newIntArray only with small sizes; the \\tracingmacros printing hook is not called.",
+         "Trusted: catch_unwind with the harness panic hook, the harness state type (same components as StdLibState, in-memory file system, scripted terminal, expansion budget 3000), proptest. \\sleep is not installed; the \\tracingmacros hook's computations run into a counter instead of stdout; the wall-clock parameters are pinned; an argument-doubling macro (unbounded memory, no capacity limit in Texlang) is not generated.",
          "DESIGN.md §4 C09"),
  "C08": ("differential PBT: the same VM<StdLibState> continued without a checkpoint vs serialised+deserialised (JSON / MessagePack / bincode), plus the concatenated program in a fresh VM",
          "Random (P1,P2,format): P1 = prefix of a generated scoping history (open groups with saved values, registers, aliases, macros incl. active characters, catcode/mathcode, \\endlinechar, \\globaldefs) plus extras (\\newInt/\\newIntArray, parameter macros, fresh names, open \\openin streams, open conditionals of four kinds, \\let of primitives/characters, \\mathchardef, token lists with control sequences, active-character definitions); P2 observes all of it, continues the history, closes every group and conditional and reads every target. Token-exact output and error title of P2 must be identical with and without the checkpoint; (de)serialisation panics are violations.",
-         "Trusted: serde_json / rmp-serde / bincode, the capture handlers, proptest. Quick tier: one format per case (rotating); thorough: all three per case. Terminal input and error-recovery modes are not exercised (StdLibState prints to stdout there).",
+         "Trusted: serde_json / rmp-serde / bincode, the capture handlers, proptest. Quick tier: one format per case (rotating); thorough: all three per case. All four interaction modes are generated (recoverable errors are only raised in batch mode and in errorstop mode, where nothing is printed to the harness's stdout); the wall-clock parameters are pinned.",
          "DESIGN.md §4 C08"),
  "C05": ("PBT + exact small-scope termination: generated lig/kern programs and words, compiled program vs a direct TeX-main-loop interpreter (reference model), calibrated on the crate's unit-test tables, corpus loop verdicts and cmr10",
          "Random programs over 2-4 letter alphabets (all eight ligature forms, kerns, SKIP/STOP chains, shared chains, >255 instructions with redirected entry points, left-boundary label, right boundary char inside/outside the alphabet) handed over directly, through pl::File and through a TFM round trip; 5 words each, run() and run_with_options. compile reports a loop iff some pair diverges in the interpreter (decided exactly by a step bound on 2-3 letter alphabets, bounded otherwise, undecided skipped); loop-free: glyph/kern sequence and ligature originals equal, originals spell the word.",
@@ -55,7 +55,7 @@ CHECKS = {
          "DESIGN.md §4 C19"),
  "C06": ("exhaustive enumeration + PBT against transcriptions of TeX's arithmetic: all scaled values (thorough) print/scan round trip; proptest-generated register programs vs scan_int/scan_dimen/scan_glue/arithmetic models",
          "Every scaled value with |s|<=2^30-1 (thorough; quick: |s|<=2^20, all multiples of 65537, powers of two +-2, 2M random): Display equals print_scaled, parse_no_units and parse_from_string invert it, <=5 digits and no shorter fraction scans back. Random programs of assignments, coercions, \\advance/\\multiply/\\divide over count/dimen/skip registers with constants in every radix/unit, 0-20 fraction digits, sign strings, internal quantities as values and units, fil/fill/filll: \\the output after every operation and presence of recoverable errors must equal the model.",
-         "Trusted: models/tex_arith.rs (transcribed from tex.web 99-108, 440-461, 1236-1240; xn_over_d cross-checked against exact i128 arithmetic on every call), proptest. Operand values on which TeX negates -2^31 are skipped; recovery after a missing number is only required to report an error.",
+         "Trusted: models/tex_arith.rs (transcribed from tex.web 99-108, 440-461, 1236-1240; xn_over_d cross-checked against exact i128 arithmetic on every call), proptest. Operations whose operands make TeX itself undefined (negating -2^31) end the comparison of that program at that operation; recovery after a missing number is only required to report an error; the category codes of the tokens \\the produces are not demanded.",
          "DESIGN.md §4 C06"),
  "C13": ("PBT + exhaustive small scope against a naive Liang matcher (reference model), calibrated on the crate's goldens",
          "Random pattern sets (digits 0-9 anywhere, anchors, >16 and >32 letters), exception lists loaded before/after the patterns, words of length 1-40 in mixed case with custom lower-case maps; exhaustive pool pairs x all words of length<=6 over 3 letters; plain TeX patterns on pseudo-English words. calculate_indices must equal: exception positions if the lower-cased word is listed, otherwise odd maxima of all pattern matches, never position 0.",
@@ -63,7 +63,7 @@ CHECKS = {
          "DESIGN.md §4 C13"),
  "C15": ("PBT + exhaustive small scope against a reference hpack with exact rational glue ratios, calibrated on TeX-generated box goldens",
          "Random lists (chars, ligatures, kerns, rules incl. running dimensions, shifted nested boxes, penalties, discretionaries, glue of all four orders with positive/zero/negative/cancelling amounts) x targets natural, +-1sp, +-total, +-total+-1sp, random, Exact and Additional; every list of <=3 glue items over 4 amounts x 4 orders x excess -5..5 exhaustively. Width, height, depth, glue order and |ratio| (cross-multiplied in i128) must equal the model; fill identity natural+ratio*total==width.",
-         "Trusted: models/hpack.rs (TeX 649-667 with per-order totals), proptest. Mark/insertion/adjust/math/whatsit/leader nodes are documented unimplemented and not generated.",
+         "Trusted: models/hpack.rs (TeX 649-667 with per-order totals), proptest. Mark/insertion/adjust/math nodes are documented unimplemented (todo!()) and not generated; leader glue kinds and whatsits are generated.",
          "DESIGN.md §4 C15"),
  "C16": ("round-trip PBT + independent DVI codec (differential) + byte-level totality incl. exhaustive short strings + DVItype-style position tracker (reference model) for VarRemover",
          "Random op sequences (every variant, operands at every 1/2/3/4-byte boundary, strings of 0..255 UTF-8 bytes): deserialize(serialize(ops))==ops, all bytes consumed, and the bytes read by an independent codec written from the DVI command table give the same ops; boundary sweep +-130 around each boundary; 300k random/mutated byte strings and all strings of length<=2 (<=3 thorough): ops or documented error exactly as the independent decoder predicts, never a panic; VarRemover: same (page,h,v,font,char|rule) events and same other ops in order, no w/x/y/z op left, dvi::Values agrees with the tracker after every op.",
@@ -86,6 +86,30 @@ CHECKS = {
          "Trusted: the snapshot model (20 lines), the naive substring search, proptest. Tag uniqueness under all interleavings is NOT established, only stress-tested.",
          "DESIGN.md §4 C20"),
 }
+
+# additions of the strengthening round (DESIGN.md 9.9), appended to the level text
+ADD = {
+ "C01": " Round 9.9: arithmetic primitives with/without \\global, prefix chains, \\global\\chardef/\\mathchardef, code tables above 127, names undefined at group start, \\let to characters, aliases on active characters, implicit braces; sub-check scoping_stdlib runs the same oracle on the shipped StdLibState.",
+ "C02": " Round 9.9: main-loop dispatch as well as \\expandafter, arguments spanning expansion stack and source text, digits, delimiters up to 7 tokens with self-overlap, 35 fixed TeXbook/def.rs vectors, two catcode regimes, second call in one VM, active and cat-3/4/6/8 characters.",
+ "C03": " Round 9.9: vm_path (real lexer::Config implementations through \\catcode/\\endlinechar), long_inputs on an 8 MiB thread, tightened trace columns, repeated configuration switches.",
+ "C04": " Round 9.9: decoy Params, accent/math kerns, list edges, negative/cancelling glue, 4-6 widths, second font, passes sub-check for the tex.web 863/873 pass sequence.",
+ "C05": " Round 9.9: partial tables of looping programs, corpus_words over all corpus fonts, add_word node lists, instructions_for_entrypoint, long words, other design sizes, codes 0x00/0xFF, kern index >= 256.",
+ "C06": " Round 9.9: print-then-rescan through the VM, per-operation error kinds, blanks/case/category codes in keywords and units, exhaustive arith_pairs over edge values, distinct em/ex, alphabetic constants, \\chardef-like internal integers, parse_from_string over all units.",
+ "C07": " Round 9.9: operands ended by \\else/\\or/\\fi, spaces, text or macros; \\noexpand before unexpandable tokens; one-step model for conditional/\\the/parameter-macro targets; differential continued beyond recovered errors; macro-delivered conditional tokens; more junk kinds.",
+ "C08": " Round 9.9: extras re-observed after all groups close, recorded errors in all interaction modes, fingerprint of every name after the round trip, a final error compared in full, wide index/value domains with a canonical register view, redefined built-in names, stream shapes, two checkpoints.",
+ "C09": " Round 9.9: statement templates (soup_deep), repl_two_runs, configuration matrix (no working directory, stdin-like terminal at EOF, script::run_to_string, simple \\expandafter), per-title error counters, location check on recovered errors.",
+ "C10": " Round 9.9: 250..256 VARCHAR characters, all 256 codes with >255 widths, lig tables at the cap, junk glued into tokens, every warning/error rendered as the binaries do, text-derived size bound on every output table, 8 MiB-stack nesting probes in child processes.",
+ "C11": " Round 9.9: orphan lig tags, independent seven-bit-safe computation, header lengths 3..17, SLANT >= 16, long skips, padded header strings, raw_tfm sub-check.",
+ "C12": " Round 9.9: reused preprocessor, blank runs/tabs/line ends, \\spaceskip shapes incl. overflow, final breakpoint, kern kinds, non-empty vertical lists, more node kinds, second font; four demands beyond the property relaxed.",
+ "C13": " Round 9.9: the TeX primitives \\patterns/\\hyphenation (via the hook accessor), hypthenate() and aggregate scores on every case, wide alphabets, explicit 0 next to long zero runs, query-load-query, big_tables, plain_overlay, file syntax.",
+ "C14": " Round 9.9: the implementation runs on every case (also TeX-anomaly words, now decided exactly), exact set of discretionary positions, first word of a list, eight more node kinds, exhaustive cmr10 pass over {f,i,l,a} words, counted node-for-node comparison with TeX's reconstitution.",
+ "C15": " Round 9.9: signed fill identity also for overfull boxes, all six glue kinds, dims_small exhaustive sub-check, partial glyph metrics, dimensions up to 2^30, whatsits.",
+ "C16": " Round 9.9: writer on reader-produced ops (over-long / non-UTF-8 strings), special positions, normalise pipeline on mutated streams, reader_forms, reader_prefixes, var_remover_overflow.",
+ "C17": " Round 9.9: compress over the full i32 range and through the PL caller, long NEXTLARGER chains, Display of i32::MIN, PL writer path, CPU-time watchdog with an inconclusive outcome.",
+ "C18": " Round 9.9: every parser-produced list reprinted and reparsed, full-range integers, 16 comment positions, independent dimension model for all units, explicit CST compared, scale_probes in child processes on 8 MiB threads.",
+ "C19": " Round 9.9: lazy per-source scanner with category codes and groups, empty files, names ended by non-space tokens, blanks before names, macro-issued \\endinput, constructs spanning files, 16 streams, # and active targets in \\read, nested multi-line groups, 150 sequential inputs.",
+ "C20": " Round 9.9: Nevec/Matcher accessors (nevec_model), map entry points and container serde, several static tags and a process-wide tag set, exhaustive interner enumeration under colliding hashers with serde rebuilds.",
+}
 NOT_YET = {}
 
 def main():
@@ -103,7 +127,7 @@ def main():
                 "evidence_file": f"/verif/evidence/{i}.json",
                 "replay_cmd_template": f"./check {i} --replay {{path}}",
                 "engine": "vp-harness",
-                "level_claimed": {"category": "exploration", "text": text, "design_ref": ref},
+                "level_claimed": {"category": "exploration", "text": text + ADD.get(i, ""), "design_ref": ref + " and 9.9"},
                 "level_note": note,
                 "technique": tech,
             })
